@@ -344,6 +344,7 @@ static void record(uint64_t seed, long nhist, long nsteps, FILE *out, const char
 
 int main(int argc, char **argv) {
     vf::install_handlers();
+    vf::ledger_trace("h_hash", false);
     if (argc < 2) return 2;
     std::string mode = argv[1];
     if (mode == "walk" && argc >= 5) {
